@@ -390,6 +390,9 @@ static int processAndInsertNode(KSI_TreeBuilder *builder, KSI_TreeNode *node) {
 		if (tmp != NULL) {
 			res = KSI_TreeNode_join(builder->ctx, builder->hsr, tmp, localRoot == NULL ? node : localRoot, &localRoot);
 			if (res != KSI_OK) goto cleanup;
+
+			/* The sibling belongs to the joined node now. */
+			tmp = NULL;
 		}
 	}
 
@@ -399,6 +402,17 @@ static int processAndInsertNode(KSI_TreeBuilder *builder, KSI_TreeNode *node) {
 	tmp = NULL;
 
 cleanup:
+
+	if (res != KSI_OK && localRoot != NULL) {
+		/* Undo the joins: the caller keeps the ownership of the node, everything
+		 * that was joined on top of it by the leaf processors is discarded. */
+		if (node->parent != NULL) {
+			if (node->parent->leftChild == node) node->parent->leftChild = NULL;
+			if (node->parent->rightChild == node) node->parent->rightChild = NULL;
+			node->parent = NULL;
+		}
+		KSI_TreeNode_free(localRoot);
+	}
 
 	KSI_TreeNode_free(tmp);
 
